@@ -473,7 +473,8 @@ def run_shard(shard, tier, seed):
                     continue
                 dets = {"x": sdef, "o": {"g1": "w1"}, "o2": {"g2": "w2"}}
                 if cname in ("1of", "allof", "not-1of"):
-                    dets = {"x": sdef, "o": {"g1": "w1"}}
+                    # an underscore-prefixed detection is never selected by a pattern that does not start with '_'
+                    dets = {"x": sdef, "o": {"g1": "w1"}, "_u": {"g9": "w9"}}
                 rule = None
                 for k in cfgs:
                     rule = judge(res, "B", dets, [tree], k, rule_obj=rule, label=f"{sname}/{cname}")
